@@ -38,6 +38,8 @@ SCENARIOS = [
     ('distinct-count', 'select distinct count a1', False),
     ('group-all-aggregates', 'select a1, COUNT(*), MIN(a2), MAX(a2), SUM(a2), AVG(a2), VARIANCE(a2), MEDIAN(a2), ARRAY_AGG(a3), ANY_VALUE(a1) group by a1', False),
     ('join', 'select a1, b2, bNR join b on a1 == b1', True),
+    # a join on TWO keys next to the join on one: whatever a join keeps per key shape (key getter, index layout) is per query
+    ('join-two-keys', 'select a1, b2, bNR, NR join b on a1 == b1 and NR == bNR', True),
     ('aggregates-over-numbers', 'select AVG(NR), VARIANCE(len(a1)), MIN(NR * 1.5), SUM(NF), MEDIAN(NR)', False),
     ('update-nu', 'update a2 = str(NU) + a2 where a1 != "c"', False),
     ('top', 'select top 1 a1, NF', False),
